@@ -78,7 +78,9 @@ META = {
               "one distinct symbol per place of supply.  Unit 'wiring': "
               "each covered method (quick: a seeded third = 13 "
               "MachineController + 3 BMPController methods; thorough: all "
-              "38 + 7; application() has its own unit) x every feasible "
+              "38 + 7; application() has its own unit; five methods have a "
+              "second row with another form of their arguments, see "
+              "'pass-through') x every feasible "
               "length of the positional prefix x an 11-entry menu of supply "
               "patterns per argument (keyword / context levels {1}, {2}, "
               "{3}, {1,2}, {1,3}, {2,3}, {1,2,3} / nowhere / keyword over "
@@ -91,6 +93,20 @@ META = {
               "symbolic), a block that also sets the contextual arguments "
               "the method does not take, the BMP host set; one probe call "
               "without explicit arguments after all blocks are left.  Unit "
+              "'pass-through' (both tiers, same exploration as 'wiring'): "
+              "the methods that hand their resolved arguments on to other "
+              "decorated methods -- count_cores_in_state and "
+              "wait_for_cores_to_reach_state with an iterable of 2-3 states "
+              "(names and AppState members; every signal datagram's app_id "
+              "field), load_application in count mode and with "
+              "use_count=False (flood fill end, count / per-core vcpu "
+              "reads at the target chip, start signal), "
+              "load_routing_tables, sdram_alloc_as_filelike, sdram_alloc "
+              "with clear=True (the fill), fill with an unaligned region "
+              "(the write), get_iobuf, get_ip_address, get_working_links, "
+              "get_num_working_cores, read / write_struct_field -- so that "
+              "an explicit argument different from every context is on the "
+              "wire of every inner command.  Unit "
               "'sources': the FULL product of (nowhere | keyword | "
               "positional) x (8 subsets of context levels) over the free "
               "arguments -- thorough: sdram_alloc (x, y, app_id), send_scp "
@@ -443,7 +459,8 @@ class Env(object):
 class Spec(object):
     def __init__(self, vals=None, seq=(), cpu=0, x="x", y="y", xy="all",
                  app=(), extra=None, args=(), kwonly=None, kw=None, buf=256,
-                 post=None, cores=None, via_board=None):
+                 post=None, cores=None, via_board=None, method=None,
+                 chips=None, mem=None):
         self.vals = vals or {}      # non-contextual parameters
         self.seq = tuple(seq)       # command codes of the datagrams sent
         # dest_cpu of each datagram: an argument name, a constant, or "M":
@@ -464,6 +481,12 @@ class Spec(object):
         # not the `board` argument (set_power is documented to go through
         # board 0 whatever boards it switches)
         self.via_board = via_board
+        # a second row for the same method (another form of its arguments)
+        self.method = method
+        # {datagram index: (x, y)}: datagrams addressed elsewhere than x, y
+        self.chips = chips or {}
+        # {address: bytes}: memory content this form needs
+        self.mem = mem or {}
 
 
 _SPECS = {}
@@ -474,6 +497,7 @@ def specs():
         return _SPECS
     from rig.links import Links
     from rig.routing_table import RoutingTableEntry, Routes
+    from rig.machine_control.consts import AppState
     st = structs()
     vcpu, sv = st[b"vcpu"], st[b"sv"]
     VS = vcpu.size
@@ -570,6 +594,31 @@ def specs():
         "wait_for_cores_to_reach_state": Spec(
             {"state": "wait", "count": 1, "poll_interval": 0.1,
              "timeout": None}, seq=(22,), x=255, y=255, app=((0, 2, 0),)),
+        # -- other forms of the same methods: the resolved arguments are
+        # handed on to further decorated methods
+        "count_cores_in_state[iterable]": Spec(
+            {"state": ("wait", AppState.run, "idle")},
+            method="count_cores_in_state", seq=(22, 22, 22), x=255, y=255,
+            app=((0, 2, 0), (1, 2, 0), (2, 2, 0))),
+        "wait_for_cores_to_reach_state[iterable]": Spec(
+            {"state": [AppState.wait, "run"], "count": 2,
+             "poll_interval": 0.1, "timeout": None},
+            method="wait_for_cores_to_reach_state", seq=(22, 22), x=255,
+            y=255, app=((0, 2, 0), (1, 2, 0))),
+        "load_application[use_count=False]": Spec(
+            args=("a.aplx", {(2, 3): {1}}), kwonly={"app_id": REQ},
+            kw={"use_count": False}, method="load_application",
+            seq=FF + (2, 2, 22), x=255, y=255,
+            chips={5: (2, 3), 6: (2, 3)},
+            cores=(0, 0, "M", 0, 0, "M", "M", 0),
+            app=((4, 2, 24), (7, 2, 0)), extra=sig(7, 3),
+            # core 1 waits: vcpu_base (0) + its block + cpu_state
+            mem={VS * 1 + vcpu[b"cpu_state"].offset: b"\x05"}),
+        "sdram_alloc[clear]": Spec({"size": 16, "tag": 0, "clear": True},
+                                   method="sdram_alloc", seq=(28, 5),
+                                   app=((0, 1, 8),)),
+        "fill[unaligned]": Spec({"address": A + 1, "data": 7, "size": 3},
+                                method="fill", seq=(3,), cpu="p"),
         "load_routing_tables": Spec({"routing_tables": {(1, 2): [entry]}},
                                     seq=(28, 2, 3, 29), x=1, y=2,
                                     cores=(0, "M", "M", 0),
@@ -621,7 +670,8 @@ class Plan(object):
         from rig.utils.contexts import Required
         self.cls, self.name = cls, name
         self.spec = spec = specs()[cls][name]
-        fn = getattr(getattr(rmc, cls), name)
+        self.method = spec.method or name
+        fn = getattr(getattr(rmc, cls), self.method)
         self.params = []            # (name, default) positional-or-keyword
         self.varargs = False
         for p in list(inspect.signature(fn).parameters.values())[1:]:
@@ -783,7 +833,7 @@ class Scenario(object):
         mark = len(env.wire)
         outcome, err = "ok", None
         try:
-            r = getattr(self.ctl, pl.name)(*pos, **kw)
+            r = getattr(self.ctl, pl.method)(*pos, **kw)
             res = type(r).__name__
         except TypeError as e:
             outcome, err, res = "TypeError", repr(e), None
@@ -827,9 +877,10 @@ class Scenario(object):
         which = range(len(sent)) if spec.xy == "all" else spec.xy
         for i in which:
             q = sent[i][1]
-            items.append((sand(q.dest_x == x, q.dest_y == y),
+            cx, cy = spec.chips.get(i, (x, y))
+            items.append((sand(q.dest_x == cx, q.dest_y == cy),
                           "command-wrong-chip",
-                          (pl.name, i, (q.dest_x, q.dest_y), (x, y))))
+                          (pl.name, i, (q.dest_x, q.dest_y), (cx, cy))))
         ctxp = self.in_force("p", active)
         for i, (_, q) in enumerate(sent):
             c = spec.cores[i]
@@ -930,6 +981,7 @@ def scenario(ctx, cls, name, npos, sources, em, init_mode="default",
     hosts = BMP_HOSTS[hosts_i] if cls == BMP else None
     with Env(ctx, buf=pl.spec.buf) as env:
         ctl = env.controller(cls, init, hosts)
+        env.machine.mem.update(pl.spec.mem)
         s = Scenario(ctx, env, ctl, pl, model_init, hosts)
         s.levels, s.explicit = levels, explicit
         s.run(npos, em, probe_after)
@@ -1371,6 +1423,17 @@ def units(tier, seed):
     bmp_names = sorted(["send_scp", "get_software_version", "set_power",
                         "set_led", "read_fpga_reg", "write_fpga_reg",
                         "read_adc"])
+    # methods that hand their resolved arguments on to other decorated
+    # methods (always driven, also in quick), including the second forms
+    passing = sorted([
+        "count_cores_in_state[iterable]",
+        "wait_for_cores_to_reach_state[iterable]",
+        "wait_for_cores_to_reach_state", "load_application",
+        "load_application[use_count=False]", "load_routing_tables",
+        "sdram_alloc_as_filelike", "sdram_alloc[clear]", "fill[unaligned]",
+        "get_iobuf", "get_ip_address", "get_working_links",
+        "get_num_working_cores", "write_struct_field",
+        "read_struct_field"])
     if quick:
         rnd = random.Random(seed)
         mc_names = sorted(rnd.sample(mc_names,
@@ -1382,6 +1445,9 @@ def units(tier, seed):
     strides = (4,) if quick else (4, 7)
     us.append(Unit("wiring MachineController: %s" % ",".join(mc_names),
                    h_wiring, dict(cls=MC, names=mc_names, strides=strides),
+                   split=2, witnesses=W))
+    us.append(Unit("pass-through MachineController: %s" % ",".join(passing),
+                   h_wiring, dict(cls=MC, names=passing, strides=strides),
                    split=2, witnesses=W))
     us.append(Unit("wiring BMPController: %s" % ",".join(bmp_names),
                    h_wiring, dict(cls=BMP, names=bmp_names, strides=strides),
